@@ -39,18 +39,20 @@ func init() {
 const (
 	AOk = iota
 	AOkClose
-	ASilentClose // answers, then closes while the connection is idle
-	ACloseFirst  // closes before the first response byte
-	ACloseHeader // closes in the middle of the header
-	ACloseBody   // closes in the middle of the body
-	AStall       // never answers
-	ASlow        // answers completely, but only after the caller's request timeout (and before the read timeout)
-	AOkCloseCap  // like AOkClose, spelled "Connection: Close" (connection options are case-insensitive tokens)
-	AChunkedCut  // chunked response, complete up to and including the last-chunk line "0\r\n", then the peer closes (the final CRLF never arrives)
+	ASilentClose  // answers, then closes while the connection is idle
+	ACloseFirst   // closes before the first response byte
+	ACloseHeader  // closes in the middle of the header
+	ACloseBody    // closes in the middle of the body
+	AStall        // never answers
+	ASlow         // answers completely, but only after the caller's request timeout (and before the read timeout)
+	AOkCloseCap   // like AOkClose, spelled "Connection: Close" (connection options are case-insensitive tokens)
+	AChunkedCut   // chunked response, complete up to and including the last-chunk line "0\r\n", then the peer closes (the final CRLF never arrives)
+	AOkCloseSplit // like AOkClose, the option sent on a field line of its own followed by a second Connection line ("Connection: close" CRLF "Connection: X-Hop")
+	AEarlyHints   // a 103 Early Hints interim response in front of the (keep-alive) final response
 	nAnswers
 )
 
-var answerNames = []string{"ok", "ok+close", "silent-close-idle", "close-before-first-byte", "close-mid-header", "close-mid-body", "stall", "slow", "ok+Close", "chunked-cut-before-final-CRLF"}
+var answerNames = []string{"ok", "ok+close", "silent-close-idle", "close-before-first-byte", "close-mid-header", "close-mid-body", "stall", "slow", "ok+Close", "chunked-cut-before-final-CRLF", "ok+close-on-the-first-of-two-Connection-lines", "103-early-hints-then-ok"}
 
 type Scenario struct {
 	Name     string `json:"name"`
@@ -312,6 +314,22 @@ func (c *sconn) request(head, from string) {
 		c.out = append(c.out, full...)
 		c.respLeft = len(full)
 		c.eof = true
+	case AOkCloseSplit:
+		ans = AOkClose
+		c.lastAns = AOkClose
+		split := bytes.Replace(respBytes(id, true), []byte("Connection: close\r\n"), []byte("Connection: close\r\nConnection: X-Hop\r\n"), 1)
+		if method == "HEAD" {
+			split = split[:bytes.Index(split, []byte("\r\n\r\n"))+4]
+		}
+		c.out = append(c.out, split...)
+		c.respLeft = len(split)
+		c.eof = true
+	case AEarlyHints:
+		ans = AOk
+		c.lastAns = AOk
+		all := append([]byte("HTTP/1.1 103 Early Hints\r\nLink: </s.css>; rel=preload\r\n\r\n"), full...)
+		c.out = append(c.out, all...)
+		c.respLeft = len(all)
 	case AOk:
 		c.out = append(c.out, full...)
 		c.respLeft = len(full)
